@@ -32,7 +32,7 @@ ASSUMPTIONS = ["Event::Terminated is emitted only by the timer spawned in Compon
                "one task per single-waker slot (a Writer/Reader/accept future is polled by one task at a time, as &mut self enforces)",
                "SetOnce::set, AtomicU8 load/compare_exchange and each Mutex-protected section are atomic steps"]
 MANIFEST = {
-    "text": "Machine-checked Coq theorems (Properties/C17.v). c17_monotone: in the atomic-granularity model of ArcConnState (load / compare_exchange / SetOnce::set are single steps, any number of racing update / enter_handshaked / enter_closing / enter_draining / Terminated callers, every schedule) the state word never decreases, and the codes regenerated from state.rs are ordered attempted < handshake_confirmed < closing < draining < closed. c17_error_once: under every schedule no expect()/unreachable!() fires, the terminating error never changes once set, it is set only at/after the closing code and is set whenever the word reached the closing code and no step is pending. c17_release: after on_conn_error e every task registered in any waker slot (senders' write/flush/shutdown, receivers' read, listener bi/uni, stream-id waiters, parameter waiters, datagram reader) has a pending wake and no slot keeps a sleeper; in every later state every open/accept/datagram/parameter operation returns e, every stream read/write/flush/shutdown returns e or the stream half's own terminal result, none is Pending, no write or datagram is accepted, nothing is emitted and no receive buffer grows. c17_idle_not_before / c17_idle_after: health() answers TimeOut only if the last effective payload is older than defer+max_idle (and no packet at all arrived for max_idle), and always answers TimeOut once a health check has seen defer exceeded and more than max_idle passed with nothing but health checks and non-effective sends. c17_release_all lifts this to whole histories: any error-free history, then the error, then any further history of any operations (a second racing error included) leaves the connection poisoned with the first error. The as-is tree's F23 (pending open_bi/open_uni not woken) is kept as c17_release_refuted + the conditional theorem; the default workspace verifies the repaired tree. Models and the real ArcConnState / DataStreams+DatagramFlow+FlowController+ArcParameters / IdleTimer are driven with the same histories every run, the connection error at every position.",
+    "text": "Machine-checked Coq theorems (Properties/C17.v). c17_monotone: in the atomic-granularity model of ArcConnState (load / compare_exchange / SetOnce::set are single steps, any number of racing update / enter_handshaked / enter_closing / enter_draining / Terminated callers, every schedule) the state word never decreases, and the codes regenerated from state.rs are ordered attempted < handshake_confirmed < closing < draining < closed. c17_error_once: under every schedule no expect()/unreachable!() fires, the terminating error never changes once set, it is set only at/after the closing code and is set whenever the word reached the closing code and no step is pending. c17_release: after on_conn_error e every task registered in any waker slot (senders' write/flush/shutdown, receivers' read, listener bi/uni, stream-id waiters, parameter waiters, datagram reader) has a pending wake and no slot keeps a sleeper; in every later state every open/accept/datagram/parameter operation returns e, every stream read/write/flush/shutdown returns e or the stream half's own terminal result, none is Pending, no write or datagram is accepted, nothing is emitted and no receive buffer grows. c17_idle_not_before / c17_idle_after (RFC 9000 10.1 terms, repaired IdleTimer): health() answers TimeOut only if the last restart of the idle period (a received effective packet, or the FIRST effective packet sent after a receive) is older than defer+max_idle and no packet at all arrived for max_idle, and always answers TimeOut once a health check has seen defer exceeded and more than max_idle passed with nothing received - whatever is sent meanwhile (retransmission does not postpone the timeout; c17_idle_retransmit_regression keeps the pre-F65 rule as a refuted example). c17_update_public: update() of every public state constant (CLOSED included, F40 repaired) is total and a forward move. c17_flag_constant: no operation writes the model's fix flag; c17_pending_registers: a Pending poll leaves its task in a waker slot. c17_release_all lifts this to whole histories: any error-free history, then the error, then any further history of any operations (a second racing error included) leaves the connection poisoned with the first error. The as-is tree's F23 (pending open_bi/open_uni not woken) is kept as c17_release_refuted + the conditional theorem; the default workspace verifies the repaired tree. Models and the real ArcConnState / DataStreams+DatagramFlow+FlowController+ArcParameters / IdleTimer are driven with the same histories every run, the connection error at every position.",
     "note": "Level partial by design: task spawning (tokio::spawn of the closing/draining timers, send_ccf_packets), the Terminator, RcvdPacketQueue::close_all, path teardown and real sockets are runtime behaviour the model does not exhibit; the TLS handshake object's on_conn_error is not driven. ArcConnState is driven at method granularity only (atomic interleavings are covered by the proof, not by execution). Trusted: Coq kernel, table translator, extraction, harness (which plays the executor), Python oracle.",
     "technique": "Coq proof (inductive invariant over all interleavings of a small-step atomic model; structural lemmas over the poisoned components; invariant over timer histories) tied by a regenerated state table + differential correspondence on three streams",
     "level": "partial",
@@ -44,11 +44,11 @@ def regen():
 
 
 # ======================================================================================== connstate
-CODES = [1, 2, 3, 4, 5, 6, 7, 8, 9]     # index -> code as the harness orders the states; index 9 = CLOSED const
+CODES = [1, 2, 3, 4, 5, 6, 7, 8, 9, 9]  # index -> code as the harness orders the states; index 9 = the CLOSED constant (= closed)
 
 
 def cs_ops_alphabet():
-    return [(1, [0]), (1, [5]), (1, [6]), (1, [8]), (2, []), (3, [5]), (3, [101]), (4, [6]), (4, [102]), (5, []), (6, []), (7, [])]
+    return [(1, [0]), (1, [5]), (1, [6]), (1, [8]), (1, [9]), (2, []), (3, [5]), (3, [101]), (4, [6]), (4, [102]), (5, []), (6, []), (7, [])]
 
 
 def cs_probe():
@@ -77,7 +77,7 @@ def gen_connstate(rng, tier):
         for _ in range(L):
             r = rng.random()
             if r < 0.25:
-                ops.append((1, [rng.choice([0, 1, 2, 3, 4, 5, 6, 7, 8, 8])]))
+                ops.append((1, [rng.choice([0, 1, 2, 3, 4, 5, 6, 7, 8, 8, 9])]))
             elif r < 0.35:
                 ops.append((2, []))
             elif r < 0.5:
@@ -115,7 +115,7 @@ def oracle_connstate(case, obs):
                 old = v[0]
                 if old < cur_lo and not (cur_lo == 0):
                     return "backwards: op %d reports previous state %d after state %d was reached" % (k, old, cur_lo)
-                new = {1: CODES[args[0]] if tag == 1 and args[0] < 9 else None, 2: 6, 3: 7, 4: 8}[tag]
+                new = {1: CODES[min(args[0], 9)] if tag == 1 else None, 2: 6, 3: 7, 4: 8}[tag]
                 if new is None or new <= old and not (old == 1 and cur_lo == 0):
                     return "backwards: op %d moved the state from %s to %s" % (k, old, new)
                 if new < cur_lo:
@@ -145,17 +145,9 @@ def oracle_connstate(case, obs):
     return None
 
 
-def classify_connstate(case, msg, obs):
-    if msg.startswith("panic:") and known_open("F40"):
-        for (tag, args), line in zip(case.ops, obs):
-            if line.strip() == "-9":
-                return "F40" if (tag == 1 and args and args[0] >= 9) else None
-    return None
-
-
 def nontrivial_connstate(case):
     closers = sum(1 for t, a in case.ops if t in (3, 4))
-    ups = [CODES[a[0]] for t, a in case.ops if t == 1 and a[0] < 9]
+    ups = [CODES[min(a[0], 9)] for t, a in case.ops if t == 1]
     backwards = any(ups[i] >= ups[j] for i in range(len(ups)) for j in range(i + 1, len(ups)))
     return closers >= 2 or backwards or (closers >= 1 and any(t == 1 for t, _ in case.ops))
 
@@ -205,6 +197,24 @@ def gen_idle(rng, tier):
                     ops += [(1, [max(0, m + delta2 - 2)]), (4, []), (1, [1]), (4, []), (1, [1]), (4, []), (1, [1]), (4, []), (1, [1]), (4, [])]
                     cases.append(Case("b%d" % n, ops, cfg=[m, d]))
                     n += 1
+    # retransmission into a dead network (F65): effective packets every `gap` ms, nothing received,
+    # health checks every 10 ms and at the boundary -1 / +0 / +1 ms; optionally one receive in the middle
+    for (m, d) in [(20, 0), (100, 50), (30, 20), (250, 10)]:
+        for gap in (1, 3, 5, 9):
+            for rcv in (None, 0, 2):
+                for delta in (-1, 0, 1, 2):
+                    ops = [(2, [2]), (1, [d + 1]), (4, [])]          # first send, defer seen exceeded
+                    t = 0
+                    while t + gap < m + delta:
+                        ops += [(1, [gap]), (2, [2])]
+                        t += gap
+                        if t % 10 < gap:
+                            ops.append((4, []))
+                        if rcv is not None and m // 2 <= t < m // 2 + gap:
+                            ops.append((3, [rcv]))
+                    ops += [(1, [max(0, m + delta - t)]), (4, []), (1, [1]), (2, [2]), (4, []), (1, [1]), (4, [])]
+                    cases.append(Case("t%d" % n, ops, cfg=[m, d]))
+                    n += 1
     nrand = 1500 if tier == "quick" else 40000
     for i in range(nrand):
         m = rng.choice([0, 20, 30, 100, 101, 250, 2000, 4000])
@@ -228,17 +238,22 @@ def gen_idle(rng, tier):
 
 
 def idle_walk(case):
-    """replays the history on the specification side: yields (k, tag, args, now, t0, last_rcvd, max_idle, armed_at)"""
+    """replays the history on the SPECIFICATION side (RFC 9000 10.1 with the defer extension of the code):
+    the idle period is restarted by a received packet carrying effective payload and by the FIRST effective
+    packet sent after a receive; later sends (retransmissions into a dead network) do not restart it.
+    yields (k, tag, args, now, t0 = last restart, last_rcvd, max_idle, defer, armed_at)"""
     m, d = int(case.cfg[0]), int(case.cfg[1])
-    now, t0, lr, armed = 0, None, None, None
+    now, t0, lr, armed, sent_since_rcvd = 0, None, None, None, False
     for k, (tag, args) in enumerate(case.ops):
         if tag == 1:
             now += args[0]
         elif tag == 2:
-            if args[0] >= 2:
+            if args[0] >= 2 and not sent_since_rcvd:
+                sent_since_rcvd = True
                 t0, armed = now, None
         elif tag == 3:
             lr = now
+            sent_since_rcvd = False
             armed = None            # any received packet may restart the idle period
             if args[0] >= 2:
                 t0 = now
@@ -247,7 +262,7 @@ def idle_walk(case):
             armed = None            # the bound changed: start counting again at the next health check
         yield k, tag, args, now, t0, lr, m, d, armed
         if tag == 4 and t0 is not None and now - t0 > d and armed is None:
-            armed = now             # a health check has seen defer exceeded; quiet from here on
+            armed = now             # a health check has seen defer exceeded; nothing received from here on
     return
 
 
@@ -266,15 +281,23 @@ def oracle_idle(case, obs):
                 if m == 0:
                     return "early: op %d TimeOut although idle timeout is disabled" % k
                 if t0 is None or not (now - t0 > d + m):
-                    return "early: op %d TimeOut at %d ms, last effective payload at %s, defer %d + max_idle %d" % (k, now, t0, d, m)
+                    return "early: op %d TimeOut at %d ms, idle period last restarted at %s, defer %d + max_idle %d" % (k, now, t0, d, m)
                 if lr is not None and not (now - lr > m):
                     return "early: op %d TimeOut at %d ms although a packet was received at %d (max_idle %d)" % (k, now, lr, m)
             elif armed is not None and m != 0 and now - armed > m:
-                return "late: op %d at %d ms answers %s: defer was seen exceeded at %d ms and max_idle %d has passed quietly" % (k, now, v, armed, m)
+                return "late: op %d at %d ms answers %s: defer was seen exceeded at %d ms and max_idle %d has passed with nothing received (sending does not postpone the timeout)" % (k, now, v, armed, m)
     return None
 
 
 def nontrivial_idle(case):
+    eff_since_rcvd = 0
+    for tag, args in case.ops:
+        if tag == 3:
+            eff_since_rcvd = 0
+        elif tag == 2 and args[0] >= 2:
+            eff_since_rcvd += 1
+            if eff_since_rcvd >= 3 and any(t == 4 for t, _ in case.ops):
+                return True
     for (k, tag, args, now, t0, lr, m, d, armed) in idle_walk(case):
         if tag == 4 and t0 is not None:
             if abs(now - t0 - d) <= 1:
@@ -324,7 +347,8 @@ def history_alphabet(role):
     return [(0, []), (1, [0]), (1, [1]), (2, [0]), (2, [1]), (3, [ours[0], 12]), (4, [ours[0]]), (5, [ours[0]]),
             (6, [ours[0], 8]), (6, [peer[0], 8]), (7, []), (10, []), (11, [0]), (11, [1]), (12, [ours[0], 5, 0]),
             (12, [peer[0], 5, 1]), (18, []), (19, [ours[0]]), (16, [ours[0], 40]), (17, [0, 2]), (15, [ours[0]]), (14, [ours[0]]),
-            (13, [peer[0], 3]), (8, [7]), (20, [9]), (3, [ours[2], 12]), (6, [peer[2], 4])]
+            (13, [peer[0], 3]), (8, [7]), (20, [9]), (3, [ours[2], 12]), (6, [peer[2], 4]),
+            (8, [1197]), (8, [1198]), (8, [63]), (8, [64])]
 
 
 def with_error_at(ops, pos, role, eid, second=None, flowerr=False):
@@ -543,7 +567,7 @@ def mutate_connerr(rng, case, j):
 STREAMS = [
     {"name": "connstate", "pkg": "hq", "bin": "impl_connstate",
      "gen": gen_connstate, "oracle": oracle_connstate, "nontrivial": nontrivial_connstate, "hist": hist_connstate,
-     "mutate": mutate_connstate, "classify": classify_connstate,
+     "mutate": mutate_connstate,
      "profiles": ("debug",), "profiles_thorough": ("debug",), "rule": RULE},
     {"name": "connerr", "pkg": "hr", "bin": "impl_connerr",
      "gen": gen_connerr, "oracle": oracle_connerr, "nontrivial": nontrivial_connerr, "hist": hist_connerr,
